@@ -48,8 +48,10 @@ var siteCodes = map[string]int{
 	"RPCClient.SyncStreams:copyStream#1":      20,
 	"RPCClient.SyncStreams:copyStream#2":      21,
 	"RPCServer.Serve:ServeConn#1":             22,
-	"RPCServer.ServeConn:copyStream#1":        23,
-	"RPCServer.ServeConn:copyStream#2":        24,
+	"RPCServer.ServeConn:copyChanStream#1":    23,
+	"RPCServer.ServeConn:copyChanStream#2":    24,
+	"RPCServer.ServeConn:copyChan#1":          30,
+	"RPCServer.ServeConn:copyChan#2":          31,
 	"RPCServer.ServeConn:Run#1":               25,
 	"dispenseServer.Dispense:func#1":          26,
 	"Serve:func#1":                            27,
